@@ -269,14 +269,17 @@ def c03_glyphcache(run, fx):
         K |= root_params(fx, b, prov.op(a))
     V = set()
     putK = None
-    for cb in fx.closures_of(b.dp):
+    # the miss path: a closure handed to unwrap_or_else, or the rest of the function after an early return of the cached value
+    for cb in [b] + list(fx.closures_of(b.dp)):
         cprov = sym.Prov(cb)
         for bi, t in cb.calls():
             if callee_is(t, "font::GlyphCache::put"):
                 putK = set()
                 for a in t["args"][1:3]:
                     putK |= root_params(fx, cb, cprov.op(a))
-            else:
+            elif callee_is(t, "font::GlyphCache::get"):
+                continue
+            elif cb is not b or (t["callee"].get("krate") == fx.raw["crate"] and not (t["callee"].get("path") or "").startswith(("std::", "core::"))):
                 for a in t["args"]:
                     V |= root_params(fx, cb, cprov.op(a))
     V.discard("self")
@@ -326,7 +329,16 @@ def c03_glyphcache(run, fx):
                     xs, ys = sym.strip(x), sym.strip(y)
                     for a, c in ((xs, ys), (ys, xs)):
                         if a[0] == "arg" and a[2] == "ch" and c[0] in ("c", "uneval"):
-                            ks.add(str(c[1]) if c[0] == "uneval" else repr(c[1:]))
+                            v = c[1]
+                            if c[0] == "uneval":
+                                v = (fx.const(c[1]) or {}).get("val", c[1])
+                            if isinstance(v, str) and len(v) == 1:
+                                v = ord(v)
+                            if not isinstance(v, int) and len(c) > 3:
+                                import re as _re
+                                m_ = _re.search(r"u\{([0-9a-fA-F]+)\}", str(c[3]))
+                                v = int(m_.group(1), 16) if m_ else v
+                            ks.add(str(v))
             out = ks if out is None else (out & ks)
         return out or set()
 
@@ -574,10 +586,14 @@ def c03_rebase(run, fx, floors=True):
                     continue
                 data, base = prov.op(f["data"]), sym.strip(prov.op(f["base"]))
                 starts = []
-                for x in sym.walk(data):
-                    if x[0] == "agg" and str(x[1]).endswith(("ops::RangeFrom", "ops::Range")) and x[3]:
-                        starts.append(sym.strip(x[3][0]))
-                from_self = any(y[0] == "field" and y[2] == "data" and any(z[0] == "arg" and z[2] == "self" for z in sym.walk(y)) for y in sym.walk(data))
+                from_self = False
+                # the data may be the merge of the arms of a match (`match self.data.get(offset..) { Some(t) => t, None => &[] }`)
+                for _db, dv in sym.alternatives(b, prov, data):
+                    for x in sym.walk(dv):
+                        if x[0] == "agg" and str(x[1]).endswith(("ops::RangeFrom", "ops::Range")) and x[3]:
+                            starts.append(sym.strip(x[3][0]))
+                    if any(y[0] == "field" and y[2] == "data" and any(z[0] == "arg" and z[2] == "self" for z in sym.walk(y)) for y in sym.walk(dv)):
+                        from_self = True
                 moving = [x for x in starts if not (x[0] == "c" and x[1] == 0)]
                 if not from_self or not moving:
                     continue
